@@ -711,5 +711,5 @@ XREF_FILES = ["src/library.cpp", "src/rawcell.cpp", "src/gdsii.cpp", "src/oasis.
 MANIFEST = dict(
    text='Decides, for every CFG path of the eight file readers, the structural necessary conditions of crash/leak/false-success freedom: no exit edge carries an open FILE* (R-PAIR, incl. the ref-counted RawSource idiom and its guard), every loop makes progress on every path (R-LOOP), nullable results are tested before use (R-NULL), success returns are dominated by the ENDLIB arm and error exits return an empty value and set the error code (R-MUSTPASS), every gdsii_read_record result is checked and its short-read tests compare the fread result with the requested count (R-ERRCHK, linear normalisation), copies into fixed-size objects are bounded (R-BOUND); a released buffer is never read again - returned, passed on, released twice - before being reassigned, in any function reachable from the readers (R-PAIR.dangling); record payloads, which are not NUL-terminated, only reach length-taking callees and the record buffers hold the longest record (R-BOUND.cstring, R-CONST, shared with C17); every stdio call on the (nullable) error logger reachable from the readers is under a test of the pointer, in the release configuration and - for the units that use the debug-only logging macros - in the default configuration without NDEBUG (R-NULL.logger). All paths / all exits, no input bound. Does not decide absence of every memory error for every byte pattern, nor checksum coincidences.',
    note='Trusted: clang 14 front end and clang::CFG, tools/gx/gx.cc, sa/*.py; libc model (fopen may return NULL, fclose releases, fread returns item count); callee summaries only for functions under /repo. Path-insensitive joins only add states, so a pass covers all feasible paths.',
-   technique='custom typestate / dominance / loop-progress dataflow over the clang CFG (libTooling extractor + Python rules)',
+   technique='custom typestate / dominance / loop-progress dataflow over the clang CFG, path-sensitive exploration over a finite environment for the ErrorCode readers (libTooling extractor + Python rules)',
    design='§4 C18')
